@@ -165,12 +165,64 @@ CLAIMED = {
              "QUIC list-of-sessions level (a new session is appended, existing ones keep their position) is read off the model's dispatch, exercised by the sweep.",
         technique="Coq proof (prefix-monotonicity of a chain of left folds; append-only invariant of the QUIC output buffer) + exhaustive cut sweep on the implementation",
         design="I.4 C08"),
+    "C06": dict(
+        text="Proof (TLS conversation, splitting, TCP/UDP/IPv4/IPv6 frame validity; pcapng layout by strict read-back): Coq theorems C06_conversation (a non-empty export is a three-way handshake "
+             "followed by segments that the standard reassembler of Spec/Reader.v reads back as exactly the exported streams: gap-free, non-overlapping, consistent "
+             "acknowledgements), C06_splitting (a record carried by k packets is re-split into at most k parts whose concatenation is the record), C06_tcp_checksum and "
+             "C06_ipv4_header (the frame model's TCP checksum and IPv4 header verify, lengths correct), C06_udp_datagram (every UDP datagram of a QUIC export: ports, length "
+             "field and payload in place, checksum verifying against the IPv4 or IPv6 pseudo-header, also when 0xFFFF replaces a computed 0) and C06_ipv6_header. The pcapng "
+             "block layout and the empty-session cases are "
+             "decided by an independent strict pcapng reader, frame validator and TCP reassembler on the implementation's output for healthy and damaged captures under "
+             "rotating option sets, with byte-exact model/implementation correspondence.",
+        note="Trusted: Coq kernel; scapy/dpkt serialisation modelled (Model/Frames.v, PcapngWriter.v) and tied by byte-exact correspondence; tools/ref/readback.py.",
+        technique="Coq proof (builder invariant, one's-complement arithmetic) + strict independent read-back of every output",
+        design="3 C06"),
+    "C07": dict(
+        text="Proof: Coq theorems C07_provenance (a record's metadata is exactly the set of buffered packets whose byte range intersects the record's), C07_times_and_direction "
+             "(handshake stamped with the first carrier of the first exported record; every segment stamped with a carrier of its own record and flowing in the record's "
+             "direction), C07_addressing (every frame goes from the sender's MAC/IP/port to the receiver's, IP version of the flow), C07_roles (roles fixed by the flow's first "
+             "packet); QUIC times and directions are C02_one_output_per_input_datagram. Closed under the global context. The check compares every exported frame of reference "
+             "captures with the endpoints and the exact overlap set of its record.",
+        note="Trusted: Coq kernel; models tied by byte-exact correspondence; timestamps are the reader's floats (microsecond value and float identity computed by the harness).",
+        technique="Coq proof (overlap characterisation, builder invariant) + per-frame provenance oracle on reference captures",
+        design="3 C07"),
+    "C13": dict(
+        text="Proof: Coq theorems C13_traffic (what a TLS session hands to the builder without -a is what it hands over with -a minus the entries only -a adds; no cipher state "
+             "depends on the option), C13_only_adds (the data segments written without -a are, payload for payload and in order, a subsequence of those written with -a), "
+             "C13_hello_verbatim (every handshake record, the hellos among them, is emitted verbatim as an entry of its own), C13_quic (per direction the bytes exported without -a "
+             "are the STREAM data; with -a the same frames' data with CRYPTO data in between, in frame order). Closed under the global context.",
+        note="Trusted: Coq kernel; models tied by byte-exact correspondence at both settings of the option.",
+        technique="Coq proof (filtering commutes with the session fold and the builder) + paired exports with and without -a",
+        design="3 C13"),
+    "C09": dict(
+        text="Proof: Coq theorems over a model of keylog_reader.get_keys_from_string and of run(): C09_line_ends (the keys of a text are the keys of its lines, LF or CRLF), "
+             "C09_decorations / C09_comment / C09_blank (lines that are not 'LABEL random secret' contribute nothing wherever they stand), C09_hex_case (upper- or lower-case "
+             "hex digits give the same key), C09_order_and_duplicates_tls13 / C09_order_and_duplicates_quic (the derivations take the last line per label: two logs with the same "
+             "lines in any order and with any repetitions, each label's lines agreeing, give the same keys), C09_first_line / C09_duplicates_first_line (TLS <= 1.2 uses the "
+             "first line of the connection), C09_blocks_in_front (secrets in one or several decryption-secrets blocks in front of the packets = the same secrets in a file, "
+             "for any traffic, also as the only source), C09_blocks_anywhere_tls (for TLS over TCP the blocks may stand anywhere). Closed under the global context. The text "
+             "model is tied to the code by correspondence on structured and near-miss texts; ten ways of supplying the same secrets must give byte-identical exports.",
+        note="Trusted: Coq kernel; key-log text is ASCII; pcapng block framing of DSBs is C12's reader model; open()/decode and working-directory independence are exercised "
+             "by the check only.",
+        technique="Coq proof (line splitting lemmas, deterministic regex matcher, closed form of the last-wins loops, folds that only append to the key log) + byte-identical exports under ten supplies",
+        design="I.4 C09"),
+    "C10": dict(
+        text="Proof: Coq theorems C10_only_watched_ports / C10_session_on_watched_port (a TCP packet that belongs to no session opens one iff one of its ports is a default or "
+             "-p port; roles by C07_roles), C10_exported_ports_tls / C10_exported_ports_quic (client port never changed; server port original without -m, mapped for listed "
+             "ports and 8080 otherwise with -m -- the same rule for both builders), C10_command_line (any sequence of '-p v+', '-m v*' and other options: watched ports = "
+             "443, 44330, 443 and every -p value in order; map from the last -m, bare -m = 443:8080; original ports kept iff no -m), C10_trailing_comma, and "
+             "C10_source_constants tying the constants regenerated from main.py and both builders (default lists, nargs, action, 8080) to the model. Closed under the global context.",
+        note="Trusted: Coq kernel; argparse modelled for the -p/-m part (option/value tokens, decimal digit strings) and tied to the real arg_parser_init + get_port_map by "
+             "correspondence on well-formed and malformed command lines; py2coq G1 constants.",
+        technique="Coq proof (fold over option groups) + command-line correspondence + end-to-end port oracle computed from the raw argv",
+        design="3 C10"),
 }
 
 NOT_YET = "not claimed yet in this revision: model and theorems under construction (see DESIGN.md section 7)"
 
 
 def main():
+    assert sorted(CLAIMED) == ALL, "an entry of CLAIMED is missing: %s" % sorted(set(ALL) - set(CLAIMED))
     checks = []
     for pid in ALL:
         if pid not in CLAIMED:
